@@ -320,7 +320,11 @@ class C06(Harness):
             for prog in self.programs(cfg['L']):
                 n_exec += 1
                 del log[:]
-                obj = K(**ctor_kw)
+                try:
+                    obj = K(**ctor_kw)
+                except Exception as e:
+                    vs.append(V('construction-raises', 'K(%s) raised %r' % (ctor_kw, e), exc=type(e).__name__, **key))
+                    break
                 if cfg['shape'] == 'function':
                     del fn_log[:]
 
